@@ -15,7 +15,7 @@ def gen(rng, tier):
     n = 1500 if tier == "quick" else 20000
     out = []
     for _ in range(n):
-        st = laylib.setup(rng, popts=rng.random() < 0.3, relative=rng.random() < 0.15)
+        st = laylib.setup(rng, popts=rng.random() < 0.3, relative=rng.random() < 0.15, links=rng.random() < 0.3)
         cmds = st["cmds"] + st["pre"] + [st["read"], "dump 0", "getall 0", "path 0"]
         obs = [False] * (len(st["cmds"]) + len(st["pre"])) + [True, True, True, True]
         out.append(Scenario(cmds, obs, tags=("mode%d" % st["mode"],)))
